@@ -90,10 +90,35 @@ def lower_order_periodic(case, params):
     return any(_dir_flags(b)['periodic'] for b in o['bases'])
 
 
+def _splitvector(n, parts):
+    """refinement._splitvector"""
+    delta = n // parts
+    sizes = [delta] * parts
+    for i in range(parts - (n - parts * delta) + 1, parts):
+        sizes[i] += 1
+    res = [0]
+    for i in range(1, parts):
+        res.append(sizes[i] + res[i - 1])
+    return res
+
+
 def nonperiodic_end_split(case, params):
     """split() at a value equal to end() of a non-periodic, non-open direction raises IndexError (the knot
     insertion at end() that precedes the slicing fails, see C04-nonperiodic-end)"""
     o = _obj(case)
+    if o is not None and case.get('op') == 'subdivide' and 'IndexError' in case.get('what', ''):
+        # subdivide picks its split points among the distinct domain knots by _splitvector; when that choice
+        # contains the last knot of a non-open direction it calls split(end()) -- the same defect
+        for b in o['bases']:
+            k = [Fr(x) for x in b['knots']]
+            p = b['order']
+            if b['periodic'] >= 0:
+                continue
+            dom = sorted(set(x for x in k if k[p - 1] <= x <= k[len(k) - p]))
+            nonopen_end = sum(1 for x in k if x == k[len(k) - p]) < p
+            if nonopen_end and (len(dom) - 1) in _splitvector(len(dom), case['n'] + 1)[1:]:
+                return True
+        return False
     if o is None or case.get('op') != 'split' or 'IndexError' not in case.get('what', ''):
         return False
     b = o['bases'][case['direction']]
